@@ -48,8 +48,13 @@ cancel it - the rounding error is that of the terms, not of the remainder)
   zero_obl  obliquity variants called with obliquity = 0.0 equal the no-obliquity variants ("exactly"): non-modal
             tuple, every shared mode; modes the no-obliquity variant does not have are 0 (with use_static=True: 0 or
             the static term alone, see KF-C14-static-in-every-mode): <= 1e-14 sc (measured: bit-identical).
-  Two-scale ratio tests (no fixed tolerance decides; D(lambda) = max-norm of the difference over 3..6 points and
-  all six components, in units of sc; evaluated at lambda and lambda/2; D1 <= 1e-11 is "below floor" = held):
+  Two-scale ratio tests (no fixed tolerance decides; D(lambda) = max-norm of the difference over 4..6 points and
+  all six components, in units of sc; evaluated at lambda, lambda/2, lambda/4; D <= 1e-11 is "below floor" = held).
+  A term of too low an order makes EVERY consecutive ratio small for EVERY value of the secondary parameter, whereas a
+  ratio can be small by accident when the leading coefficient nearly vanishes at one parameter value (mode '2o':
+  obl^4 (kappa^2/8 - 1/36), zero at kappa = 0.4714; seen 5 times in 3000 cases) or when two orders cancel at one scale.
+  The clause therefore fails only if NO scale pair of NO variant (kappa and 0.75 kappa; obliquity and 0.8 obliquity+0.1)
+  reaches the required ratio:
   med_gen   medium-obliquity vs general-obliquity variants, per mode of the modal pair, the static parts, and the
             non-modal totals.  "to second order in obliquity" is decided as D = O(lambda^3): required
             D(lambda)/D(lambda/2) >= 2^2.5 = 5.66 (a surviving 2nd-order term gives 4, a 1st-order term 2, the
@@ -79,17 +84,23 @@ and mode, so that any other mode/clause still raises a VIOLATION; the search con
   KF-C14-low-e-o-term          low-e general-obliquity 'o' coefficient is (-2/3) sin^3 cos only; the (2/3) cos^3 sin half
         (the dominant obliquity tide, F_211 G_210) is missing: zeroth-order difference vs `gen_modes` as e -> 0.
 
-Sensitivity (tools/mut.py, quick tier, --cases 2000), all CAUGHT - see the end of this docstring for the list.
-  synchronous_low_e.py   `-12. * np.cos(orbital_frequency * time)` -> `+12. * ...` (the slip the source comment
-                         mentions)                                            -> laplace + deriv/Upp simple
-  nsr_modes_med_eccen_no_obliquity.py  `sine_2long_coeff_dphi = -2. * cos_dbl_long` -> `-2. * sin_dbl_long`
-                                                                                -> deriv/Up + laplace nsr_modes
-  nsr_med_eccen_gen_obliquity.py  `dp2_22_dtheta2 = 6. * (cos2_lat - sin2_lat)` -> `3. * (...)`  -> laplace + deriv/Utt gen
-  nsr_med_eccen_med_obliquity.py  `dp_20_dtheta = -3. * cos_lat * sin_lat` -> `-3. * cos_lat * cos_lat` -> deriv/Ut med
-  nsr_modes_med_eccen_med_obliquity.py `(7. / 12.) * e - (41. / 32.) * e3 - (7. / 24.) * e * ob2` -> `(5. / 12.) * e ...`
-                                                                                -> modal_sum + zero_obl + med_gen
-  nsr_med_eccen_no_obliquity.py  `(17. / 12.) * e2` -> `(17. / 12.) * e`   -> modal_sum + sync
-  each proposed fix applied alone: its known finding is no longer reproduced and nothing new appears.
+Sensitivity (tools/mut.py on a scratch copy, quick tier with --cases 2000; every mutant CAUGHT, clauses that fired listed):
+  synchronous_low_e.py   `(-12. * np.cos(orbital_frequency * time)` -> `(+12. * ...` (the slip the source comment
+                         mentions)                                    -> deriv/Upp + laplace simple, sync
+  nsr_modes_med_eccen_no_obliquity.py  `sine_2long_coeff_dphi = -2. * cos_dbl_long` -> `-2. * sin_dbl_long` (sin<->cos in
+                         the d/dphi term)                             -> deriv/Up of all five P22 modes of nsr_modes
+  nsr_med_eccen_gen_obliquity.py  `dp2_22_dtheta2 = 6. * (cos2_lat - sin2_lat)` -> `3. * (...)` (wrong factor in a second
+                         derivative)                                  -> deriv/Utt + laplace gen, modal_sum, zero_obl
+  nsr_med_eccen_med_obliquity.py  `dp_20_dtheta = -3. * cos_lat * sin_lat` -> `-3. * cos_lat * cos_lat`
+                                                                      -> deriv/Ut, deriv/Utt, laplace med, modal_sum
+  nsr_modes_med_eccen_med_obliquity.py  `(7. / 12.) * e - (41. / 32.) * e3 - (7. / 24.) * e * ob2` -> `(5. / 12.) * e ...`
+                                                                      -> modal_sum, zero_obl[2o-3n], med_gen[2o-3n]
+  nsr_med_eccen_no_obliquity.py  `(17. / 12.) * e2,` -> `(17. / 12.) * e,` -> modal_sum, sync (ratio 2), zero_obl
+  nsr_modes_low_eccen_gen_obliquity.py  `((7. / 3.) * e) * sin3_cos` -> `((7. / 3.)) * sin3_cos` -> low_e[o+3n]
+  out/proposed-fix-C14-{1,2,3,4}.diff each applied alone (tools/mut.py --patch): rc 0, the corresponding known finding
+  is no longer reproduced, nothing new appears.
+Margins re-measured with the final generator (2500 generated cases, unchanged tree): no deriv/laplace/modal_sum/zero_obl
+failure with all tolerances tightened 10x; deriv none even at 100x; laplace first failures at 30x.
 """
 import math
 import warnings
@@ -550,15 +561,37 @@ def _eval_zero_obl(case, c, P, path):
                         % (impl, k, ' (or the static term alone)' if stat is not None else '', d))
 
 
-def _two_scale(c, name, sig, d1, d2, need, bound, lam_desc):
-    ok, r = _ratio_verdict(d1, d2, need)
-    if d1 <= FLOOR:
-        return
-    c.check(ok, dict(sig, what='ratio'),
-            '%s: D(lambda)=%.4e, D(lambda/2)=%.4e (units of G M R^2/a^3), ratio %.2f < %.2f required (order observed %.2f); %s'
-            % (name, d1, d2, r, need, math.log2(r) if r > 0 and math.isfinite(r) else float('nan'), lam_desc))
-    c.check(d1 <= bound, dict(sig, what='bound'),
-            '%s: D(lambda)=%.4e exceeds the sanity bound %.4e; %s' % (name, d1, bound, lam_desc))
+SCALES = (1.0, 0.5, 0.25)
+
+
+def _run_ok(ds, need):
+    """ds = [D(lambda), D(lambda/2), D(lambda/4)].  Held if the difference is at rounding level or if EITHER consecutive
+    ratio reaches the required order (the claim is asymptotic: lambda -> 0)."""
+    if ds[0] <= FLOOR or ds[1] <= FLOOR:
+        return True
+    if _ratio_verdict(ds[0], ds[1], need)[0]:
+        return True
+    if ds[2] <= FLOOR * 1e-3:          # second pair not measurable above rounding
+        return True
+    return ds[1] / ds[2] >= need
+
+
+def _order_test(c, name, sig, runs, need, bound, descs):
+    """runs: one [D(l), D(l/2), D(l/4)] per variant of the secondary parameter (kappa / obliquity).  A genuine term of too
+    low an order shows for every variant; a ratio that is low only because the leading coefficient happens to (nearly)
+    vanish at one value of the secondary parameter (e.g. mode '2o': obl^4 (kappa^2/8 - 1/36), zero at kappa = 0.4714) or
+    because two consecutive orders cancel at one scale does not.  Violation <=> no variant and no scale pair reaches the
+    required ratio.  The sanity bound is applied to the first variant at the largest scale."""
+    if not any(_run_ok(ds, need) for ds in runs):
+        txt = '; '.join('%s: D = %s ratios %s' % (dsc, ', '.join('%.3e' % d for d in ds),
+                                                  ', '.join('%.2f' % (ds[i] / ds[i + 1]) if ds[i + 1] > 0 else 'inf' for i in range(2)))
+                        for dsc, ds in zip(descs, runs))
+        c.fail(dict(sig, what='ratio'), '%s: difference (units of G M R^2/a^3) at lambda, lambda/2, lambda/4 never shrinks by the '
+               'required factor %.2f per halving: %s' % (name, need, txt))
+    d1 = runs[0][0]
+    if d1 > FLOOR:
+        c.check(d1 <= bound, dict(sig, what='bound'),
+                '%s: D(lambda)=%.4e exceeds the sanity bound %.4e; %s' % (name, d1, bound, descs[0]))
 
 
 def _eval_med_gen(case, c, P, path):
@@ -568,32 +601,35 @@ def _eval_med_gen(case, c, P, path):
     ob0, kappa = float(case['obl2']), float(case['kappa'])
     c.label('twoscale:pure_obliquity' if kappa == 0.0 else 'twoscale:joint')
     og = _generic_spin(P)
-    D = {}
-    for lam in (1.0, 0.5):
-        e, ob = kappa * ob0 * lam, ob0 * lam
-        A = _call('med_modes', path, lon, col, tm, P, e=e, ob=ob, static=False, o=og)
-        B = _call('gen_modes', path, lon, col, tm, P, e=e, ob=ob, static=False, o=og)
-        for k in set(A) | set(B):
-            a_ = A.get(k, 0.0)
-            b_ = B.get(k, 0.0)
-            D.setdefault(('mode', k), []).append(_norm(b_ - a_, sc))
-        At = _call('med', path, lon, col, tm, P, e=e, ob=ob, static=False, o=og)['n']
-        Bt = _call('gen', path, lon, col, tm, P, e=e, ob=ob, static=False, o=og)['n']
-        D.setdefault(('total', 'periodic'), []).append(_norm(Bt - At, sc))
-        if P['static']:
-            As = _call('med', path, lon, col, tm, P, e=e, ob=ob, static=True, o=og)['n'] - At
-            Bs = _call('gen', path, lon, col, tm, P, e=e, ob=ob, static=True, o=og)['n'] - Bt
-            D.setdefault(('total', 'static'), []).append(_norm(Bs - As, sc))
-            Ams = _call('med_modes', path, lon, col, tm, P, e=e, ob=ob, static=True, o=og)['n'] - A['n']
-            Bms = _call('gen_modes', path, lon, col, tm, P, e=e, ob=ob, static=True, o=og)['n'] - B['n']
-            D.setdefault(('modes', 'static'), []).append(_norm(Bms - Ams, sc))
+    kappas = [kappa] if kappa == 0.0 else [kappa, 0.75 * kappa]
+    runs = {}
+    for iv, kap in enumerate(kappas):
+        for lam in SCALES:
+            e, ob = kap * ob0 * lam, ob0 * lam
+            A = _call('med_modes', path, lon, col, tm, P, e=e, ob=ob, static=False, o=og)
+            B = _call('gen_modes', path, lon, col, tm, P, e=e, ob=ob, static=False, o=og)
+            D = {}
+            for k in set(A) | set(B):
+                D[('mode', k)] = _norm(B.get(k, 0.0) - A.get(k, 0.0), sc)
+            At = _call('med', path, lon, col, tm, P, e=e, ob=ob, static=False, o=og)['n']
+            Bt = _call('gen', path, lon, col, tm, P, e=e, ob=ob, static=False, o=og)['n']
+            D[('total', 'periodic')] = _norm(Bt - At, sc)
+            if P['static']:
+                As = _call('med', path, lon, col, tm, P, e=e, ob=ob, static=True, o=og)['n'] - At
+                Bs = _call('gen', path, lon, col, tm, P, e=e, ob=ob, static=True, o=og)['n'] - Bt
+                D[('total', 'static')] = _norm(Bs - As, sc)
+                Ams = _call('med_modes', path, lon, col, tm, P, e=e, ob=ob, static=True, o=og)['n'] - A['n']
+                Bms = _call('gen_modes', path, lon, col, tm, P, e=e, ob=ob, static=True, o=og)['n'] - B['n']
+                D[('modes', 'static')] = _norm(Bms - Ams, sc)
+            for key, v in D.items():
+                runs.setdefault(key, [[] for _ in kappas])[iv].append(v)
     for impl in ('med', 'med_modes', 'gen', 'gen_modes'):
         c.label('impl:' + impl)
     lam3 = max(ob0, kappa * ob0) ** 3
-    desc = 'obliquity=%r, e=%r (kappa=%r), halved together' % (ob0, kappa * ob0, kappa)
-    for (part, k), (d1, d2) in sorted(D.items()):
-        _two_scale(c, 'medium vs general obliquity, %s %s' % (part, k), {'clause': 'med_gen', 'part': part, 'mode': k},
-                   d1, d2, RATIO_3RD, C_MEDGEN * lam3, desc)
+    descs = ['obliquity=%r, e=%r (kappa=%r), halved together' % (ob0, kap * ob0, kap) for kap in kappas]
+    for (part, k), rr in sorted(runs.items()):
+        _order_test(c, 'medium vs general obliquity, %s %s' % (part, k), {'clause': 'med_gen', 'part': part, 'mode': k},
+                    rr, RATIO_3RD, C_MEDGEN * lam3, descs)
 
 
 def _eval_sync(case, c, P, path):
@@ -601,12 +637,12 @@ def _eval_sync(case, c, P, path):
     tm = np.full(col.shape, P['t'])
     e0 = float(case['e2'])
     d = []
-    for lam in (1.0, 0.5):
+    for lam in SCALES:
         a_ = _call('simple', path, lon, col, tm, P, e=e0 * lam)['n']
         b_ = _call('nsr', path, lon, col, tm, P, e=e0 * lam, static=False, o=P['n'])['n']
         d.append(_norm(a_ - b_, P['sc']))
     c.label('impl:simple', 'impl:nsr')
-    _two_scale(c, 'simple vs nsr at spin=n', {'clause': 'sync'}, d[0], d[1], RATIO_2ND, C_E2 * e0 * e0, 'e=%r and e/2' % e0)
+    _order_test(c, 'simple vs nsr at spin=n', {'clause': 'sync'}, [d], RATIO_2ND, C_E2 * e0 * e0, ['e=%r, e/2, e/4' % e0])
 
 
 def _eval_low_e(case, c, P, path):
@@ -615,22 +651,27 @@ def _eval_low_e(case, c, P, path):
     sc = P['sc']
     e0 = float(case['e2'])
     og = _generic_spin(P)
-    D = {}
-    for lam in (1.0, 0.5):
-        e = e0 * lam
-        A = _call('low_e_modes', path, lon, col, tm, P, e=e, static=False, o=og)
-        B = _call('gen_modes', path, lon, col, tm, P, e=e, static=False, o=og)
-        for k in set(A) | set(B):
-            D.setdefault(('mode', k), []).append(_norm(B.get(k, 0.0) - A.get(k, 0.0), sc))
-        if P['static']:
-            As = _call('low_e_modes', path, lon, col, tm, P, e=e, static=True, o=og)['n'] - A['n']
-            Bs = _call('gen_modes', path, lon, col, tm, P, e=e, static=True, o=og)['n'] - B['n']
-            D.setdefault(('modes', 'static'), []).append(_norm(Bs - As, sc))
+    obls = [P['ob'], 0.8 * P['ob'] + 0.1]
+    runs = {}
+    for iv, ob in enumerate(obls):
+        for lam in SCALES:
+            e = e0 * lam
+            A = _call('low_e_modes', path, lon, col, tm, P, e=e, ob=ob, static=False, o=og)
+            B = _call('gen_modes', path, lon, col, tm, P, e=e, ob=ob, static=False, o=og)
+            D = {}
+            for k in set(A) | set(B):
+                D[('mode', k)] = _norm(B.get(k, 0.0) - A.get(k, 0.0), sc)
+            if P['static']:
+                As = _call('low_e_modes', path, lon, col, tm, P, e=e, ob=ob, static=True, o=og)['n'] - A['n']
+                Bs = _call('gen_modes', path, lon, col, tm, P, e=e, ob=ob, static=True, o=og)['n'] - B['n']
+                D[('modes', 'static')] = _norm(Bs - As, sc)
+            for key, v in D.items():
+                runs.setdefault(key, [[] for _ in obls])[iv].append(v)
     c.label('impl:low_e_modes', 'impl:gen_modes')
-    desc = 'e=%r and e/2 at obliquity=%r' % (e0, P['ob'])
-    for (part, k), (d1, d2) in sorted(D.items()):
-        _two_scale(c, 'general-obliquity medium-e vs low-e, %s %s' % (part, k), {'clause': 'low_e', 'part': part, 'mode': k},
-                   d1, d2, RATIO_2ND, C_E2 * e0 * e0, desc)
+    descs = ['e=%r, e/2, e/4 at obliquity=%r' % (e0, ob) for ob in obls]
+    for (part, k), rr in sorted(runs.items()):
+        _order_test(c, 'general-obliquity medium-e vs low-e, %s %s' % (part, k), {'clause': 'low_e', 'part': part, 'mode': k},
+                    rr, RATIO_2ND, C_E2 * e0 * e0, descs)
 
 
 def evaluate(case):
